@@ -69,6 +69,39 @@ MACROS = [
 ]
 
 
+CONV_TYPES = ["DFNT_UCHAR8", "DFNT_CHAR8", "DFNT_INT8", "DFNT_UINT8", "DFNT_INT16", "DFNT_UINT16", "DFNT_INT32", "DFNT_UINT32",
+              "DFNT_FLOAT32", "DFNT_FLOAT64", "DFNT_INT64", "DFNT_UINT64"]
+
+
+def gen_conv(tmp):
+    """(code, size, swaps) for every number type in the three flavours, by calling DFKNTsize and DFKconvert on a ramp."""
+    src = ['#include "hdf.h"\n#include <stdio.h>\n#include <string.h>\nint main(void){\n unsigned char in[16], out[16]; int i;\n']
+    for fl in ("0", "DFNT_NATIVE", "DFNT_LITEND"):
+        for t in CONV_TYPES:
+            src.append(' { int32 nt = %s | %s; int sz = DFKNTsize(nt); for (i=0;i<16;i++){in[i]=(unsigned char)(i+1); out[i]=0;}\n'
+                       '   if (sz > 0 && DFKconvert(in, out, nt, 1, DFACC_WRITE, 0, 0) != FAIL) {\n'
+                       '     int same = memcmp(in, out, sz) == 0, rev = 1; for (i=0;i<sz;i++) if (out[i] != in[sz-1-i]) rev = 0;\n'
+                       '     if (!same && !rev) { printf("X %%d\\n", (int)nt); return 3; }\n'
+                       '     printf("R %%d %%d %%d\\n", (int)nt, sz, (same ? 0 : 1)); } }\n' % (t, fl))
+    src.append(" return 0;}\n")
+    cf = os.path.join(tmp, "gen_conv.c")
+    open(cf, "w").write("".join(src))
+    exe = os.path.join(tmp, "gen_conv")
+    r = subprocess.run(["gcc", "-w", "-DH4_VERIF"] + incflags() + [cf, "-o", exe] + linkflags(), capture_output=True, text=True)
+    if r.returncode != 0:
+        fail("conversion probe does not compile:\n" + r.stderr[-3000:])
+    r = subprocess.run([exe], capture_output=True, text=True, env=dict(os.environ, ASAN_OPTIONS="detect_leaks=0"))
+    if r.returncode != 0:
+        fail("conversion probe: a routine is neither a copy nor a byte reversal (the model has no such case): " + r.stdout[-300:])
+    rows = []
+    for line in r.stdout.splitlines():
+        p = line.split()
+        if p[0] == "R":
+            rows.append("(%s, %s, %s)" % (p[1], p[2], p[3]))
+    return ("/- GENERATED by /verif/gen/gen.py (Tie A): number-type code, DFKNTsize, 1 = DFKconvert reverses the element bytes on this host. -/\n"
+            "namespace H4.Gen.Conv\n\ndef table : List (Nat × Nat × Nat) := [\n  " + ",\n  ".join(rows) + "]\n\nend H4.Gen.Conv\n")
+
+
 def fail(msg):
     print("TIE-A FAILURE: " + msg)
     sys.exit(1)
@@ -249,6 +282,7 @@ def main():
             for m in re.finditer(r"def (\w+) : (?:Nat|Int) := (-?\d+)", txt):
                 known[m.group(1)] = int(m.group(2))
             files[name + ".lean"] = txt
+        files["Conv.lean"] = gen_conv(tmp)
     files["Macros.lean"] = gen_macros(known)
     digest = {}
     for fn, txt in files.items():
